@@ -106,6 +106,8 @@ class Gen:
         if must_yield:
             out.append(self.yielding(ctx, owner))
         for _ in range(n):
+            if self.f.get("p_fault_stmt") and self.t.chance(self.f["p_fault_stmt"], 8, "fault?"):
+                out.append(["fault", "handler" if in_handler else ctx])
             st = self.stmt(ctx, owner, depth, callees, in_loop, in_handler)
             out.append(st)
             if st[0] in ("terminate", "terminatesim", "abort", "break", "continue", "return"):
@@ -262,6 +264,7 @@ class Gen:
         scenarios = []
         objpos = {}
         nobj = 0
+        all_objs = []
         for i in reversed(range(len(scn_names))):
             name = scn_names[i]
             top = i == 0
@@ -279,8 +282,23 @@ class Gen:
                 objpos[on] = (3 * nobj, 5 * i)
                 beh = t.choice(beh_names, "agent.beh") if (top and not myobjs) or t.chance(3, 4, "agent.hasbeh") else None
                 extra = [["foo", 1], ["bar", 2]] if f["w_override"] else []
+                random_prop = bool(f.get("p_spec_fault") and t.chance(f["p_spec_fault"], 8, "spec.fault?"))
+                if random_prop:
+                    extra = extra + [["baz", ["raw", "fspec(DiscreteRange(0, 1))", 1]]]
                 setup.append(["new", on, beh, extra])
-                myobjs.append(on)
+                if not (top and random_prop):
+                    # (a compose block cannot refer to a non-ego object of its own scenario
+                    # that has random properties: the name still denotes the unsampled
+                    # object -- outside every listed property, so it is not generated)
+                    myobjs.append(on)
+                all_objs.append(on)
+                # (overriding an object that has a behavior in the very setup block that
+                # creates it starts the behavior on the object instead of its proxy and is
+                # then refused as "reuse of a behavior object": not generated)
+                if not top and beh is None and f["w_override"] and t.chance(1, 3, "setup.override?"):
+                    setup.append(["override", on, t.choice(["foo", "bar"], "ovr.prop"), t.intrange(10, 99, "ovr.val")])
+            if not top and f.get("p_fault_stmt") and t.chance(f["p_fault_stmt"], 8, "setup.fault?"):
+                setup.append(["fault", "setup"])
             if top or f["p_sub_setup_reqs"]:
                 scale = 8 if top else 8 * 8 // max(1, f["p_sub_setup_reqs"])
                 if nm and t.chance(3, 8, "mon?"):
@@ -306,7 +324,16 @@ class Gen:
             else:
                 d["compose"] = None
             scenarios.insert(0, d)
+        top_setup = scenarios[0]["setup"]
+        if f.get("p_recordprop"):
+            for on in all_objs:
+                for pr in ("foo", "bar"):
+                    if t.chance(f["p_recordprop"], 8, "recordprop?"):
+                        top_setup.append(["recordprop", f"r_{on}_{pr}", on, pr])
+        if f.get("p_require_setup") and t.chance(f["p_require_setup"], 8, "require.setup?"):
+            top_setup.append(["require", self.table("guard")])
         prog = {
+            "ftab": bool(f.get("ftab")),
             "timestep": self.timestep,
             "max_steps": max_steps,
             "behaviors": behaviors,
